@@ -580,11 +580,25 @@ func buildResourceTrafficShapingController(res string, rulesOfRes []*Rule, oldRe
 	// otherwise the unchanged rule is rebuilt from scratch and loses its runtime state.
 	reserved := make(map[*TrafficShapingController]bool, len(oldResTcs))
 	matched := make([]bool, len(rulesOfRes))
-	for i, rule := range rulesOfRes {
-		for _, oldTc := range oldResTcs {
-			if !reserved[oldTc] && oldTc.BoundRule().isEqualsTo(rule) {
+	// equalOf[i] is the old one that stays in place for rule i. Rules that find an equal old rule under
+	// their own ID are served first: a rule that differs from another one only in its ID must not be
+	// given that one's state (and leave its own behind) just because it is listed earlier.
+	equalOf := make([]*TrafficShapingController, len(rulesOfRes))
+	for pass := 0; pass < 2; pass++ {
+		for i, rule := range rulesOfRes {
+			if matched[i] {
+				continue
+			}
+			for _, oldTc := range oldResTcs {
+				if reserved[oldTc] || !oldTc.BoundRule().isEqualsTo(rule) {
+					continue
+				}
+				if pass == 0 && (rule.ID == "" || oldTc.BoundRule().ID != rule.ID) {
+					continue
+				}
 				reserved[oldTc] = true
 				matched[i] = true
+				equalOf[i] = oldTc
 				break
 			}
 		}
@@ -604,12 +618,20 @@ func buildResourceTrafficShapingController(res string, rulesOfRes []*Rule, oldRe
 			}
 		}
 	}
-	for _, rule := range rulesOfRes {
+	for i, rule := range rulesOfRes {
 		if res != rule.Resource {
 			logging.Error(errors.Errorf("unmatched resource name expect: %s, actual: %s", res, rule.Resource), "Unmatched resource name in flow.buildResourceTrafficShapingController()", "rule", rule)
 			continue
 		}
-		equalIdx, reuseStatIdx := calculateReuseIndexFor(rule, oldResTcs)
+		equalIdx, reuseStatIdx := -1, -1
+		if equalOf[i] != nil {
+			for idx, oldTc := range oldResTcs {
+				if oldTc == equalOf[i] {
+					equalIdx = idx
+					break
+				}
+			}
+		}
 		if equalIdx < 0 {
 			reuseStatIdx = -1
 			for idx, oldTc := range oldResTcs {
